@@ -24,28 +24,39 @@ def standard_run(ck, P, replay_cases=None):
         else:
             budget = P.BUDGET[ck.tier] * (4 if broken else 1)   # widen the search when a tie broke
             cases = lib.load_corpus(ck.prop) + list(P.gen(ck.rng, budget, ck.tier))
-        for batch in P.batches(cases) if hasattr(P, "batches") else [cases]:
-            if not batch:
-                continue
-            impl = ck.run_impl(exe, batch, logger=getattr(P, "LOGGER", "stdout"),
-                               jobs=getattr(P, "JOBS", None), env_extra=getattr(P, "ENV", None))
-            if hasattr(P, "model_case"):
-                # two-round protocol: oracle answers computed by the real code (e.g. Go's regexp on
-                # exactly the strings the model asks about) are passed to the model as inputs
-                mcases = [P.model_case(c, i) for c, i in zip(batch, impl)]
-                impl = [P.impl_view(c, i) for c, i in zip(batch, impl)]
-                skip = [k for k, mc in enumerate(mcases) if mc is None]
-                ck.coverage["skipped_by_impl"] = ck.coverage.get("skipped_by_impl", 0) + len(skip)
-                keep = [k for k in range(len(batch)) if mcases[k] is not None]
-                batch, impl, mcases = [batch[k] for k in keep], [impl[k] for k in keep], [mcases[k] for k in keep]
-            else:
-                mcases = batch
-            if not batch:
-                continue
-            model = ck.run_model(mcases)
-            ck.compare(batch, impl, model, proj=getattr(P, "PROJ", None), canon=getattr(P, "CANON", None))
-            for c, i in list(zip(batch, impl))[:3]:
-                samples.append({"case": c[:400], "impl": i[:400]})
+        def run_cases(cases):
+            nonlocal impl, model
+            for batch in P.batches(cases) if hasattr(P, "batches") else [cases]:
+                if not batch:
+                    continue
+                impl = ck.run_impl(exe, batch, logger=getattr(P, "LOGGER", "stdout"),
+                                   jobs=getattr(P, "JOBS", None), env_extra=getattr(P, "ENV", None))
+                if hasattr(P, "model_case"):
+                    # two-round protocol: oracle answers computed by the real code (e.g. Go's regexp on
+                    # exactly the strings the model asks about) are passed to the model as inputs
+                    mcases = [P.model_case(c, i) for c, i in zip(batch, impl)]
+                    impl = [P.impl_view(c, i) for c, i in zip(batch, impl)]
+                    skip = [k for k, mc in enumerate(mcases) if mc is None]
+                    ck.coverage["skipped_by_impl"] = ck.coverage.get("skipped_by_impl", 0) + len(skip)
+                    keep = [k for k in range(len(batch)) if mcases[k] is not None]
+                    batch, impl, mcases = [batch[k] for k in keep], [impl[k] for k in keep], [mcases[k] for k in keep]
+                else:
+                    mcases = batch
+                if not batch:
+                    continue
+                model = ck.run_model(mcases)
+                ck.compare(batch, impl, model, proj=getattr(P, "PROJ", None), canon=getattr(P, "CANON", None))
+                for c, i in list(zip(batch, impl))[:3]:
+                    samples.append({"case": c[:400], "impl": i[:400]})
+
+        impl, model = [], []
+        run_cases(cases)
+        if replay_cases is None and ck.failures and not ck.violations:
+            # a tie broke and no input is known yet on which the property fails: search more widely
+            # (fresh seed, four times the budget) before reporting no-failing-input-found
+            import random
+            ck.notes.append("correspondence broken without a property-violating input: widened search (4x budget, fresh seed)")
+            run_cases(list(P.gen(random.Random(ck.seed + 7919), P.BUDGET[ck.tier] * 4, ck.tier)))
         # recorded findings that are identified by a witness input rather than a signature of the model
         if replay_cases is None:
             for k in ck.known:
